@@ -80,6 +80,17 @@ CHECKS = {
         design_ref="7 C10", technique="TLA+ state machine + refinement invariants + liveness, spec->code replay, code->spec trace validation",
         note="Validators' pass/fail outcomes are inputs of the case. Dependency discovery is bound through generated "
              "source shapes only."),
+    "C15": dict(
+        category="model_checking",
+        text="spec/FieldsSet.tla: one instance and its tracked set, actions Construct / Deser / SetAttr / SetFields / "
+             "Unset / Replace mirroring apischema/fields.py and dataclasses.replace, over class shapes (decorated single "
+             "class, required / init=False / InitVar / default_as_set fields, decorated or undecorated base and subclass). "
+             "TLC checks the set laws (TypeOK, DeserLaw = present keys + default_as_set + init=False, ExcludeUnsetSound) "
+             "over every operation sequence within the bound; every reachable history (each prefix is a history) and "
+             "long simulated ones are replayed on real classes and fields_set(obj) plus the keys of serialize with "
+             "exclude_unset True/False (typed and untyped) are compared after the last step.",
+        design_ref="7 C15", technique="TLA+ state machine over operation histories, TLC exhaustive + simulation, step-wise replay",
+        note="Values are small ints, aliases are names. The undecorated-subclass corner is a sandwich (provided <= set <= stored fields)."),
     "C20": dict(
         category="model_checking",
         text="spec/RecCheck.tla models is_recursive / RecursiveChecker.visit with one action per access to the shared "
